@@ -956,7 +956,9 @@ class Machine:
         if isinstance(clo, Adt):
             b = self.prog.closure_body(clo)
             if b is None:
-                # tuple-struct / enum-variant constructor used as a function
+                # tuple-struct / enum-variant constructor used as a function (`.map_err(RpcError::General)`, `.map(Some)`)
+                if not str(clo.ty).startswith('{') and not clo.fields:
+                    return Adt(clo.ty, clo.variant, {i: a for i, a in enumerate(args)}, None, clo.meta)
                 raise Unsupported('closure body not found for %r' % (clo,))
             pty = b.params[0][1]
             first = clo if pty.startswith('{') else Ref(Cell(clo), 'v')
